@@ -25,6 +25,7 @@ use std::collections::{BTreeMap, HashSet};
 use std::sync::atomic::{AtomicU64, Ordering};
 
 pub static CUR_CASE: AtomicU64 = AtomicU64::new(u64::MAX);
+pub static HEARTBEAT: AtomicU64 = AtomicU64::new(0);
 
 fn usage() -> ! {
     eprintln!("usage: tdmon <C01..C20> [--tier quick|thorough] [--scale native|vg|miri] [--lane NAME] [--seed S] [--shard i/n] [--start k] [--only k] [--max m] [--cursor F] [--viollog F] [--out F]");
@@ -47,19 +48,23 @@ fn cpu_ticks() -> u64 {
 fn spawn_watchdog(prop: String, viollog: Option<String>, limit_ticks: u64) {
     std::thread::spawn(move || {
         let mut last_case = u64::MAX;
+        let mut last_beat = 0u64;
         let mut start_ticks = cpu_ticks();
         loop {
             std::thread::sleep(std::time::Duration::from_millis(1000));
             let c = CUR_CASE.load(Ordering::Relaxed);
+            let b = HEARTBEAT.load(Ordering::Relaxed);
             let now = cpu_ticks();
-            if c != last_case {
+            // progress = a new case was started or a monitor counted an event (one call under test returned)
+            if c != last_case || b != last_beat {
                 last_case = c;
+                last_beat = b;
                 start_ticks = now;
                 continue;
             }
             if c != u64::MAX && now.saturating_sub(start_ticks) > limit_ticks {
                 let line = serde_json::json!({"sig": format!("{}|no-progress", prop), "case": c,
-                    "desc": "", "detail": format!("case {} consumed more than {} CPU ticks without finishing", c, limit_ticks)});
+                    "desc": "", "detail": format!("case {}: a single call under test consumed more than {} CPU ticks without returning", c, limit_ticks)});
                 if let Some(p) = &viollog {
                     use std::io::Write;
                     if let Ok(mut f) = std::fs::OpenOptions::new().append(true).create(true).open(p) {
